@@ -42,6 +42,8 @@ class TypeTable:
     def __init__(self, repo: Repo):
         self.repo = repo
         classes = sorted(repo.all_classes(), key=lambda c: c.qname)
+        for c in classes:
+            c._subclasses_cache = [x for x in classes if c in x.mro and x is not c]  # type: ignore[attr-defined]
         self.class_id: dict[str, int] = {c.qname: i + 1 for i, c in enumerate(classes)}
         self.id_class: dict[int, ClassInfo] = {i + 1: c for i, c in enumerate(classes)}
         self.NONE_ID = 0
